@@ -235,6 +235,12 @@ def job_d(args):
     trans = []   # (addr, data, flips per lane, enable) for reads issued -> expected
     stable = {}
     state = dict(en=1)
+    # property-level oracle for the error counters (independent of the Lean model): words returned with a single
+    # (non-parity) flip in some lane / with a double flip in some lane since the last clear, while decoding is enabled
+    # Judged in the first half of the run, where only full writes (or writes without any byte) are issued: a partial
+    # write is outside the contract (ECC words of a lane share bytes with their neighbours) and can store invalid words.
+    cnt = dict(sec=0, ded=0, last_resp=-10, events=0)
+    half = ncyc // 2
 
     def gen():
         yield pt.cmd.ready.eq(1); yield pt.wdata.ready.eq(1); yield pf.rdata.ready.eq(1)
@@ -273,9 +279,13 @@ def job_d(args):
                 got = (yield pf.rdata.data)
                 trans.append((a, want, fl, en, got))
             # ---- drive next inputs
-            clear = int(rnd.randrange(150) == 0)
-            if rnd.randrange(120) == 0:
+            # clear / enable only change while no read is in flight, so that the oracle's counts are unambiguous
+            calm = (not rq) and (not expect) and cyc - cnt["last_resp"] > 4 and cyc < ncyc - 12 and not (half - 14 <= cyc < half)
+            clear = int(calm and rnd.randrange(40) == 0)
+            if calm and rnd.randrange(30) == 0:
                 state["en"] ^= 1
+            if clear and cyc < half:
+                cnt["sec"] = 0; cnt["ded"] = 0
             en = state["en"]
             rv, rd = 0, 0
             if rq and rq[0][0] <= cyc:
@@ -284,13 +294,26 @@ def job_d(args):
                 for (lane, p) in fl:
                     rd ^= 1 << (lane * kt + p)
                 rv = 1
+                cnt["last_resp"] = cyc
+                if en and cyc < half:
+                    perl = {}
+                    for (lane, p) in fl:
+                        perl.setdefault(lane, []).append(p)
+                    if any(len(v) == 1 and v[0] != 0 for v in perl.values()):
+                        cnt["sec"] += 1; cnt["events"] += 1
+                    if any(len(v) == 2 for v in perl.values()):
+                        cnt["ded"] += 1; cnt["events"] += 1
                 quiet = last_write.get(a, -10) < c_seen - 3 and fullw.get(a, False)
                 expect.append((a, want0 if quiet else None, fl, en))
-            op = rnd.randrange(4)
+            op = rnd.randrange(4) if (cyc < ncyc - 12 and not (half - 14 <= cyc < half)) else 3     # drain what is in flight
+            if state.get("burst", 0) > 0:                        # runs of back-to-back reads (responses on consecutive cycles)
+                op = 1; state["burst"] -= 1
+            elif cyc < ncyc - 24 and not (half - 24 <= cyc < half) and rnd.randrange(25) == 0:
+                state["burst"] = rnd.randrange(3, 9)
             wv, wwe, wd, cv, cwe, ca = 0, 0, 0, 0, 0, 0
             if op == 0:
                 ca = rnd.randrange(24); cv = 1; cwe = 1; wv = 1
-                wwe = rnd.choice([full, full, full, rnd.getrandbits(wf // 8), 0])
+                wwe = rnd.choice([full, full, full, rnd.getrandbits(wf // 8), 0]) if cyc >= half else rnd.choice([full, full, full, 0])
                 wd = rnd.getrandbits(wf)
                 # ECC granularity: a lane with any byte enabled is stored as a whole ECC word
                 sh = shadow.get(ca, 0)
@@ -340,6 +363,16 @@ def job_d(args):
             stable.setdefault(a, 0)
             viol(r, "c15-port-data", "cfg %s: read of address %d with flips %s returned %#x, expected %#x" % ((wf, wt, lanes), a, fl, got, want),
                  dict(cfg=[wf, wt, lanes], addr=a, flips=fl, got=got, want=want))
+    # counters against the oracle, after everything has drained
+    if len(obs) > half:
+        fs, fd, _, sdet, ddet = [int(x) for x in obs[half - 2].split()]
+        r.coverage["counter_events_judged"] = cnt["events"]
+        if (fs, fd) != (cnt["sec"], cnt["ded"]) or sdet != int(cnt["sec"] > 0) or ddet != int(cnt["ded"] > 0):
+            viol(r, "c15-counters", "cfg %s: since the last clear %d words with a corrected single flip and %d with a double flip were read "
+                 "(decoding enabled); the port reports sec_errors=%d ded_errors=%d sec_detected=%d ded_detected=%d"
+                 % ((wf, wt, lanes), cnt["sec"], cnt["ded"], fs, fd, sdet, ddet),
+                 dict(cfg=[wf, wt, lanes], expected=dict(sec=cnt["sec"], ded=cnt["ded"]), reported=dict(sec=fs, ded=fd, sec_detected=sdet, ded_detected=ddet),
+                      inputs_until_cycle=half, inputs_tail=lines[max(0, half - 60):half]))
     r.coverage["port_cycles"] = nn
     r.coverage["port_reads"] = len(trans)
     r.samples.append(dict(cfg=[wf, wt, lanes], cycle_input=lines[5], counters=obs[3] if len(obs) > 3 else None, part="D"))
